@@ -429,3 +429,18 @@ def c15(run):
     path = drive_ops(run, "c15")
     validate_trace(run, "CelOpTrace", path, sample_key=op_sample, nontrivial=lambda c: c["a"].get("n", {}).get("s", 1) != 0,
                    what="duration: rendering / parsing / arithmetic / comparison differs from the exact nanosecond semantics (CelDuration)")
+
+
+@check("C16")
+def c16(run):
+    run.rule = ("model: CelTimeMC -- every day number of a range (quick ~137 years around 1970, thorough years 1502-2501) is a state: civil-from-days / days-from-civil round trip, "
+                "successor date, weekday advance, year-day, anchors; local broken-down time around midnight; impl->spec: timestamps written by the harness itself as RFC 3339 text "
+                "(first/last day of every month in leap, non-leap, century, 400-year and edge years x 3 times of day x offsets -12:00..+14:00, plus random), parsed by cel-rust; "
+                "the instant must equal the specification's own parse of the text, every accessor its calendar field at the timestamp's offset, string(t) must denote the same "
+                "instant and offset, timestamp(string(t)) == t, comparisons by instant, t+d, t-d, t1-t2 and the two laws; non-trivial = every record")
+    model_check(run, "CelTimeMC", cfg=run.q("CelTimeMC_q", "CelTimeMC"), workers=12, timeout=3000)
+    model_check(run, "CelTimeMC", cfg="CelTimeMC_local", workers=12)
+    run.exhaustive = True
+    path = drive_ops(run, "c16")
+    validate_trace(run, "CelOpTrace", path, sample_key=op_sample, nontrivial=lambda c: True,
+                   what="timestamp: instant / calendar field / rendering / arithmetic differs from the CelTime specification")
